@@ -26,6 +26,8 @@ type Job struct {
 	GoArch   string           // optional GOARCH for loading (portable bodies)
 	Params   map[string]int64 // harness parameters
 	Sched    bool
+	SchedKinds string // scheduling-point kinds (empty: all)
+	SchedSkipPkgs string
 	LoopCap  int
 	MaxPaths int
 	QTimeout int      // ms
@@ -262,7 +264,7 @@ func cmdCheck(args []string) int {
 		for k, v := range j.Params {
 			params[k] = v
 		}
-		cfg := interp.Config{Workers: 8, Sched: j.Sched, LoopCap: j.LoopCap, MaxPaths: j.MaxPaths, QueryTimeoutMS: j.QTimeout, Params: params, KeepScripts: 0, Setup: j.Setup}
+		cfg := interp.Config{Workers: 8, Sched: j.Sched, SchedKinds: j.SchedKinds, SchedSkipPkgs: j.SchedSkipPkgs, LoopCap: j.LoopCap, MaxPaths: j.MaxPaths, QueryTimeoutMS: j.QTimeout, Params: params, KeepScripts: 0, Setup: j.Setup}
 		if tier == "thorough" {
 			cfg.KeepScripts = 40
 			if cfg.QueryTimeoutMS == 0 {
